@@ -655,8 +655,14 @@ Theorem known_genuine :
            obs_eqb (obs (run Fresh w_K3 c_restore_two_refresh))
                    (obs (run Fresh s' c_restore_two_refresh)) = false).
 Proof.
-  repeat split;
-    try (apply is_final_valid; vm_compute; reflexivity);
-    try (vm_compute; reflexivity);
-    apply not_serializable_spec; vm_compute; reflexivity.
+  split; [|split].
+  - split; [apply is_final_valid; vm_compute; reflexivity|].
+    split; [vm_compute; reflexivity|].
+    apply not_serializable_spec. vm_compute. reflexivity.
+  - split; [apply is_final_valid; vm_compute; reflexivity|].
+    split; [vm_compute; reflexivity|].
+    apply not_serializable_spec. vm_compute. reflexivity.
+  - split; [apply is_final_valid; vm_compute; reflexivity|].
+    split; [vm_compute; reflexivity|].
+    apply not_serializable_spec. vm_compute. reflexivity.
 Qed.
